@@ -10,7 +10,9 @@ Open Scope Z_scope.
 Inductive case19 :=
 | CLoad (sort : bool) (root : path) (listing : list fsn)
 | CEntry (name : text) (is_dir : bool) (size : option Z) (mdate : option mtime) (data0 : dict)
-| CDeser (data : dict).
+| CDeser (data : dict)
+| CSort (l : list (text * Z))                      (* sorted(entries, key=attrgetter("name")) *)
+| CPathSort (parent : path) (l : list (text * Z)). (* sorted([(parent / name, tag)], key=itemgetter(0)) *)
 
 Definition sx_ofse (o : option fse) : sx := sx_opt sx_fse o.
 
@@ -25,4 +27,8 @@ Definition run19 (c : case19) : sx :=
       | Some e => L [ sx_fse e; sx_dict (ser e d0); sx_ofse (deser (ser e d0)) ]
       end
   | CDeser d => sx_ofse (deser d)
+  | CSort l => sx_list (fun p => L [sx_text (fst p); A (snd p)]) (sort_by fst l)
+  | CPathSort parent l =>
+      sx_list (fun p => L [sx_text (fst p); A (snd p)])
+              (sort_g (fun a b => path_ltb (parent ++ [fst a]) (parent ++ [fst b])) l)
   end.
